@@ -310,7 +310,7 @@ pub fn build_ja(d: &JaDesc) -> Result<Result<Vec<u8>, String>, String> {
             rx_delay: d.rxdelay,
             c_f_list,
         };
-        let mut buf = used_buffer(d.buflen, d.dl as usize + d.rxdelay as usize);
+        let mut buf = used_buffer(d.buflen, d.key[0] as usize);
         let crypto = DefaultNetworkCrypto::new(&AES128(d.key));
         ja.build_into(&mut buf, &crypto).map(|b| b.to_vec()).map_err(|e| format!("{e:?}"))
     })
